@@ -300,6 +300,8 @@ def compare(case, obs, exp, hang=None):
         pids = ["C10"] if oexp_l is not None and upto_integ(oexp_l) == upto_integ(eexp) else ["C02", "C10"]
         must.append((pids, "exposed attributes: impl %s spec %s" % (
             [t for t, _ in oexp_l] if oexp_l is not None else oa.get("exposed"), [t for t, _ in eexp])))
+    if oa.get("adaptors"):
+        must.append((["C02", "C10"], "driving the attribute iterator through %s does not give the sequence repeated next() gives" % json.dumps(oa["adaptors"])[:200]))
     for lk in oa.get("lookup", []) if isinstance(oa.get("lookup"), list) else []:
         fe = first_exposed(ea["exposed"], lk["type"])
         want_found = fe is not None
@@ -462,7 +464,7 @@ def enum_cases(cfgs, wd):
 # --------------------------------------------------------------------------- case sources
 ALPHA_TYPES = [6, 32802, 32512, 65280, 8, 28, 32808, 36, 0]
 # wire type of each letter of MCStunMessage!Alphabet (only used to choose policing sets)
-LETTER_TYPES = [6, 6, 32802, 32802, 32512, 65280, 8, 8, 28, 28, 28, 32808, 32808, 32808, 32808, 36, 32802, 65280, 6, 0]
+LETTER_TYPES = [6, 6, 32802, 32802, 32512, 65280, 8, 8, 28, 28, 28, 32808, 32808, 32808, 32808, 36, 32802, 65280, 6, 0, 8, 28]
 
 
 def gen_messages(n, seed, wd, maxattrs=5, tag="gen", nbig=0):
@@ -538,7 +540,7 @@ def distinct(cases):
 # --------------------------------------------------------------------------- C02 / C10 / C17 / C16
 def c02(rep, tier, seed, wd):
     rng = random.Random(seed)
-    cfgs = ["bodies2", "tails4", "headers"] if tier == "quick" else ["bodies", "tails5", "headers"]
+    cfgs = ["bodies2", "tails4", "tailsfp", "headers"] if tier == "quick" else ["bodies", "tails5", "tailsfp", "headers"]
     cases, st, tr = enum_cases(cfgs, wd)
     for c in cases:
         c["lookup"] = ALPHA_TYPES
@@ -588,7 +590,7 @@ def c02(rep, tier, seed, wd):
 
 
 def c10(rep, tier, seed, wd):
-    cfgs = ["tails4", "bodies2"] if tier == "quick" else ["tails5", "bodies"]
+    cfgs = ["tails4", "tailsfp", "bodies2"] if tier == "quick" else ["tails5", "tailsfp", "bodies"]
     cases, st, tr = enum_cases(cfgs, wd)
     for c in cases:
         c["lookup"] = ALPHA_TYPES
@@ -1373,7 +1375,7 @@ def boundary_cases(rng):
 
 def c01(rep, tier, seed, wd):
     rng = random.Random(seed)
-    cfgs = ["bodies2", "tails4", "headers"] if tier == "quick" else ["bodies", "tails5", "headers"]
+    cfgs = ["bodies2", "tails4", "tailsfp", "headers"] if tier == "quick" else ["bodies", "tails5", "tailsfp", "headers"]
     cases, st, tr = enum_cases(cfgs, wd)
     for c in cases:
         c["types"] = [LETTER_TYPES[x - 1] for x in c["as"]]
